@@ -216,6 +216,7 @@ def run(ctx, rep):
     rep.floor('overflow sites on raw arguments examined', n_assert[0], 3)
     beyond_end_rule(f, P, rep, 'C13.3')
     device_kind_rule(f, rep, 'C13.4')
+    flag_word_rule(f, rep, 'C13.5')
 
 
 def device_kind_rule(f, rep, rid):
@@ -383,3 +384,74 @@ def bs(d):
 
 def ro(d):
     return any(x[0] == 'fn' and x[1].endswith('is_read_only') for x in d)
+
+
+def flag_word_rule(f, rep, rid):
+    """The flag word Qcow2Info::new builds makes each device-kind predicate answer what the constructor was told:
+    evaluated (engine F, the three inputs forced) for every reachable combination of (read-only, header names a
+    backing file, this is a backing device); the predicates are evaluated on the resulting constant by the bit
+    evaluator's single-bit table.  A device opened read-only that forgets the read-only bit accepts write_at and
+    discard (C13) and sends modifying requests to its file (C10)."""
+    from ..absint import AbsInt
+    from ..bitsem import Evaluator
+    from . import c09, c14
+    rep.rule(rid, 'for every combination of (read-only, backing file named, backing device) the flag word built by Qcow2Info::new '
+                  'makes is_read_only / has_back_file / is_back_file answer exactly that combination')
+    path = 'dev::info::Qcow2Info::new'
+    b = f.body(path)
+    if b is None:
+        raise AnalysisError('Qcow2Info::new not found')
+    ev = Evaluator(f)
+    bits = {p: set(c09.flag_bits(f, ev, p)[0]) for p in ('is_read_only', 'has_back_file', 'is_back_file')}
+    inf = c14.adt_fields(f, 'dev::info::Qcow2Info')
+    n = 0
+    for ro in (0, 1):
+        for has in (0, 1):
+            for isb in (0, 1):
+                ai = AbsInt(f)
+                got = []
+                seen = set()
+
+                def hk(val, tag):
+                    def h(ai_, st, frame, b_, bi, t, args):
+                        seen.add(tag)
+                        return val
+                    return h
+                ai.hooks['Qcow2DevParams::is_read_only'] = hk(('c', ro), 'ro')
+                ai.hooks['Qcow2DevParams::is_backing_dev'] = hk(('c', isb), 'isb')
+                ai.hooks['Qcow2Header::backing_filename'] = hk(('opt', 'Option', ('u', ('backing name',), None), ('c', has)), 'has')
+
+                def on_stmt(ai_, st, frame, b_, bi, si, s, v):
+                    if b_.path == path and v[0] == 'agg' and v[1] == 'dev::info::Qcow2Info':
+                        got.append((st.copy(), v))
+                ai.stmt_hook = on_stmt
+                ai.analyze(path)
+                if not got and isb and not ro:
+                    continue        # the constructor asserts that a backing device is read-only
+                if seen != {'ro', 'isb', 'has'}:
+                    raise AnalysisError('Qcow2Info::new: device-kind inputs not found (%s seen): the rule no longer sees '
+                                        'how the flag word is built' % sorted(seen))
+                if not got:
+                    raise AnalysisError('Qcow2Info::new builds no Qcow2Info for ro=%d backing-name=%d backing-dev=%d' % (ro, has, isb))
+                st, v = got[-1]
+                iv = ai.itvof(st, v[3][inf['flags'][0]])
+                n += 1
+                site = 'ro=%d backing-name=%d backing-dev=%d' % (ro, has, isb)
+                if iv is None or iv[0] != iv[1]:
+                    rep.note_undecided(rid, site, 'flag word is not a constant: %r' % (iv,))
+                    raise AnalysisError('Qcow2Info::new: flag word not decided for %s' % site)
+                w = iv[0]
+                wbits = {k for k in range(64) if (w >> k) & 1}
+                want = {'is_read_only': bool(ro), 'has_back_file': bool(has), 'is_back_file': bool(isb)}
+                for p, exp in want.items():
+                    ans = bool(bits[p] & wbits)
+                    ok = ans == exp
+                    rep.ob(rid, '%s: %s' % (site, p), ok, 'flag word %#x -> %s, expected %s' % (w, ans, exp))
+                    if not ok:
+                        rep.violation(rid, '%s:%s:%s' % (rid, p, 'lost' if exp else 'spurious'), b.where(0),
+                                      'Qcow2Info::new builds the flag word %#x for a device with %s: %s() answers %s. %s' % (
+                                          w, site, p, ans,
+                                          'A device opened read-only that is not recognised as such accepts write_at / discard and sends '
+                                          'write, zeroing and punch requests to its file' if p == 'is_read_only' and exp else
+                                          'The validation and the read / discard paths take the device for another kind'))
+    rep.floor('device-kind combinations evaluated through Qcow2Info::new', n, 6)
